@@ -30,6 +30,9 @@ structure Cheat where
       unrequested entry `(attr, d)` is added to `revealed_attrs` (the two parts recombine in the
       verification equation unless the revealed set is compared with the request) -/
   splitAttr : Option (String × Int) := none
+  /-- the predicate's attribute is REVEALED by the sub-proof: add a dummy entry `(attr, mj)` to
+      `eq_proof.m` so that the link check compares the predicate response with itself -/
+  injectM : Bool := false
 
 def forgeCore (inp : Json) (sigOf : Int → PubKey Int → Values → Except String (Signature Int))
     (cheat : Option Cheat) : Except String Json := do
@@ -84,11 +87,19 @@ def forgeCore (inp : Json) (sigOf : Int → PubKey Int → Values → Except Str
       | none => vals
     match finalizeEqProof eqInit c unrevealed revealed valsEq with
     | .ok eq0 =>
-      let eq : EqProof Int := match cheat with
+      let eq1 : EqProof Int := match cheat with
         | some ch => match ch.splitAttr with
           | some (a, d) => { eq0 with revealed := eq0.revealed ++ [(a, d)] }
           | none => eq0
         | none => eq0
+      let eq : EqProof Int := match cheat with
+        | some ch =>
+          if ch.injectM then
+            match preds[ch.predIndex]? with
+            | some p => { eq1 with m := eq1.m ++ [(p.attr, c * ch.value + ch.mTilde)] }
+            | none => eq1
+          else eq1
+        | none => eq1
       let mut nes : List Json := []
       let mut k := 0
       for ni in neInits do
@@ -177,6 +188,11 @@ def forgeOp (inp : Json) : Except String Json := do
     let sj ← inp.getObjVal? "sig"
     let sig : Signature Int := { m2 := ← getDec sj "m_2", a := ← getDec sj "a", e := ← getDec sj "e", v := ← getDec sj "v" }
     forgeCore inp (fun _ _ _ => .ok sig) (some { predIndex := 0, value := 0, mTilde := 0, dupFirst := true })
+  | "revealed_predicate" =>
+    let sj ← inp.getObjVal? "sig"
+    let sig : Signature Int := { m2 := ← getDec sj "m_2", a := ← getDec sj "a", e := ← getDec sj "e", v := ← getDec sj "v" }
+    let ch : Cheat := { predIndex := (← getInt cj "pred_index").toNat, value := ← getInt cj "value", mTilde := ← getDec cj "m_tilde", injectM := true }
+    forgeCore inp (fun _ _ _ => .ok sig) (some ch)
   | "split_hidden" =>
     let sj ← inp.getObjVal? "sig"
     let sig : Signature Int := { m2 := ← getDec sj "m_2", a := ← getDec sj "a", e := ← getDec sj "e", v := ← getDec sj "v" }
